@@ -24,7 +24,7 @@ LEVEL = "exploration"
 ROLES = "abcd"
 
 # ---- tree descriptions --------------------------------------------------------------------------
-# vector trees: ("r", i) | ("neg", V) | ("num", k, V) | ("smul", S, V) | ("add", V, V) | ("sub", V, V)
+# vector trees: ("r", i) | ("neg", V) | ("num", k, V) | ("smul", S, V) | ("sdiv", S, V) | ("add", V, V) | ("sub", V, V)
 #               | ("cross", V, V) | ("zero",)
 # scalar trees: ("dot", V, V) | ("mixed", V, V, V) | ("norm", V) | ("p",) | ("q",)
 
@@ -99,6 +99,11 @@ def decorations(nroles: int) -> list[Any]:
         out.append(lambda r, j=j: ("add", r, ("smul", ("q", ), ("r", j))))
         out.append(lambda r, j=j: ("sub", ("smul", ("p", ), r), ("r", j)))
     out.append(lambda r: ("add", r, ("zero", )))
+    # division by a scalar (which may be negative): alone, and sums over one / two divisors
+    out.append(lambda r: ("sdiv", ("q", ), r))
+    for j in sorted({0, min(nroles, 3)}):
+        out.append(lambda r, j=j: ("add", ("sdiv", ("q", ), r), ("sdiv", ("q", ), ("r", j))))
+        out.append(lambda r, j=j: ("add", ("sdiv", ("p", ), r), ("sdiv", ("q", ), ("r", j))))
     return out
 
 
@@ -200,6 +205,8 @@ def ref_eval(t: Any, assign: tuple) -> Any:
         return R.scale(t[1], ref_eval(t[2], assign))
     if k == "smul":
         return R.scale(ref_eval(t[1], assign), ref_eval(t[2], assign))
+    if k == "sdiv":
+        return R.scale(1 / ref_eval(t[1], assign), ref_eval(t[2], assign))
     if k == "add":
         return R.add(ref_eval(t[1], assign), ref_eval(t[2], assign))
     if k == "sub":
@@ -235,6 +242,8 @@ def build(t: Any, assign: tuple, evaluate: bool) -> Any:
         return t[1] * build(t[2], assign, evaluate)
     if k == "smul":
         return build(t[1], assign, evaluate) * build(t[2], assign, evaluate)
+    if k == "sdiv":
+        return build(t[2], assign, evaluate) / build(t[1], assign, evaluate)
     if k == "add":
         return build(t[1], assign, evaluate) + build(t[2], assign, evaluate)
     if k == "sub":
